@@ -388,6 +388,31 @@ theorem C03_gen_bounds_roundtrip (cd : Codec) (h : Hdr) (isCon : Bool) (i n : Na
   rw [gen_bounds, ← gen_readBounds, ← gen_readBounds]
   exact readBnd_one cd isCon i n L U k cvar rest hk
 
+open MpVerif.Gen.C03Writer in
+/-- **column sizes, reader tied**: the model's `readColItems` (the loop of `NLReader::ReadColumnSizes<CUMULATIVE>`) equals, for
+    all inputs, the reader `readColItemsG` whose `if (CUMULATIVE)` block is the statement list the translator extracts from
+    nl-reader.h (`size < prev` → error; `size -= prev`; `prev += size`) -/
+theorem C03_gen_colsizes_reader (cum : Bool) (prev n : Nat) (ts : List Tok) :
+    readColItems cum prev n ts = readColItemsG colCumStmts cum prev n ts :=
+  gen_readColItems cum n prev ts
+
+open MpVerif.Gen.C03Writer in
+/-- **column sizes, writer tied**: the model's two item writers equal, for all size lists and running sums, `ColSizeWriter::Write`
+    driven by the `switch (kind_)` cases the translator extracts from nl-writer2.h (kind 1: `sum_ += s` and prints `sum_`;
+    kind 2: prints `s`) -/
+theorem C03_gen_colsizes_writer (l : List Nat) (acc : Nat) :
+    wColItemsCum acc l = wColItemsG colWriteCases 1 acc l ∧ wColItemsPlain l = wColItemsG colWriteCases 2 acc l :=
+  ⟨gen_wColItems.1 l acc, gen_wColItems.2 l acc⟩
+
+open MpVerif.Gen.C03Writer in
+/-- **column sizes, both sides generated**: the reader with the extracted block, run on what the extracted writer cases print for
+    any list of sizes, reports exactly these sizes (kind 1 read as `k`, kind 2 as `K`) and continues with the rest -/
+theorem C03_gen_colsizes_roundtrip (l : List Nat) (acc : Nat) (rest : List Tok) :
+    readColItemsG colCumStmts true acc l.length (wColItemsG colWriteCases 1 acc l ++ rest) = .ok (l.map Ev.cadd, rest) ∧
+    readColItemsG colCumStmts false 0 l.length (wColItemsG colWriteCases 2 0 l ++ rest) = .ok (l.map Ev.cadd, rest) := by
+  rw [← gen_wColItems.1 l acc, ← gen_wColItems.2 l 0, ← gen_readColItems, ← gen_readColItems]
+  exact ⟨readCol_cum l acc rest, readCol_plain l rest⟩
+
 /-! ## non-vacuity: the contract is satisfiable and the theorem computes -/
 
 def exModel : Model :=
@@ -414,6 +439,11 @@ example : wfE ⟨4, 1⟩ .num (.opN 64 "pl" [.num ⟨false, 1023, 0⟩, .num Dbl
           wfE ⟨4, 1⟩ .num (.opN 64 "pl" [.num ⟨false, 1023, 0⟩, .var 0 "x"]) = false := by decide
 -- C03_gen_bounds_roundtrip: both alternatives of the hypothesis occur (ordinary bound; complementarity on a constraint)
 example : ((0 : Nat) = 0 ∨ (false = true ∧ 0 ≤ 3 ∧ 0 < 2)) ∧ ((2 : Nat) = 0 ∨ (true = true ∧ 2 ≤ 3 ∧ 1 < 2)) := by decide
+-- C03_gen_colsizes_*: the extracted tables compute: sizes 2,0,3 are written cumulatively as 2,2,5 and read back; a decreasing offset is the reader's error
+example : wColItemsG MpVerif.Gen.C03Writer.colWriteCases 1 0 [2, 0, 3] = [.int 2, .eol, .int 2, .eol, .int 5, .eol] ∧
+          wColItemsG MpVerif.Gen.C03Writer.colWriteCases 2 0 [2, 0, 3] = [.int 2, .eol, .int 0, .eol, .int 3, .eol] ∧
+          readColItemsG MpVerif.Gen.C03Writer.colCumStmts true 0 3 [.int 2, .eol, .int 2, .eol, .int 5, .eol] = .ok ([.cadd 2, .cadd 0, .cadd 3], []) ∧
+          readColItemsG MpVerif.Gen.C03Writer.colCumStmts true 0 2 [.int 2, .eol, .int 1, .eol] = .error .invalidColOffset := ⟨rfl, rfl, rfl, rfl⟩
 -- C03_header_roundtrip / C03_gen_header_roundtrip: headers with and without logical constraints, complementarity, vbtol
 example : hdrOk exModel.hdr = true := by decide
 example : hdrOk { nv := 3, nac := 2, nlc := 0, ncc := 2, nnlcc := 1, ncdi := 1, nopts := 2, opts := [0, 3, 0, 0, 0, 0, 0, 0, 0], flags := 0, arith := 0 } = true := by decide
